@@ -488,6 +488,7 @@ def run(ctx):
     ctx.rule("C10.has", "HasField / None guards name the field they guard", floor=60)
     ctx.rule("C10.top", "top-level kinds 1:1, constructor order", floor=5)
     ctx.rule("C10.acc", "media entity accessors", floor=80)
+    ctx.rule("C10.pad", "payload padding removed exactly (C03.map adopted)", floor=8)
     ctx.rule("C10.state", "no shared default payload object is mutated", floor=1)
     ctx.rule("C10.ser", "the payload entity serialises its current attributes and parses the <proto> data", floor=2)
     ctx.assume("google.protobuf's own encoding is trusted; descriptors are read from the generated modules' Descriptor(...) calls")
@@ -498,3 +499,6 @@ def run(ctx):
     ctx.guarded("C10.ser", rule_ser, ctx)
     ctx.guarded("C10.acc", rule_acc, ctx)
     ctx.guarded("C10.state", rule_state, ctx)
+    # the serialised payload is padded before and unpadded after the session cipher: exact unpadding (C03.map), adopted
+    from . import c03
+    ctx.adopt_from("C03", [(c03.rule_map, ())], {"C03.map": "C10.pad"})
